@@ -527,6 +527,46 @@ func loaderDriver(args []string) error {
 			}
 		}
 	}
+	// type confusion: every node of a rich document replaced by every value of a menu of wrongly typed values, in every
+	// format; and every single-byte edit of one compact rendering per format. Any outcome but a panic or a hang is fine.
+	thorough := len(cs.Lines) > 30000
+	sysN := 0
+	tryText := func(stage, file, text string) {
+		sysN++
+		if sysN%shards != shard {
+			return
+		}
+		root, pdir, err := mkRoot()
+		if err != nil {
+			return
+		}
+		_ = os.WriteFile(filepath.Join(pdir, file), []byte(text), 0644)
+		counts[stage+":"+file]++
+		o := safeLoad(ctx, root)
+		if o.hung {
+			add("hang", stage+":"+file, text, "returns", "hang")
+		} else if o.panic != nil {
+			add("panic", stage+":"+file, text, "no panic", fmt.Sprint(o.panic))
+		}
+	}
+	for _, text := range typeConfusions() {
+		tryText("type-confusion", "BUILD.json", text)
+		tryText("type-confusion", "BUILD.yaml", text)
+	}
+	for _, text := range typeConfusionsYAMLOnly() {
+		tryText("type-confusion", "BUILD.yaml", text)
+	}
+	for _, text := range typeConfusionsMake() {
+		tryText("type-confusion", "Makefile", text)
+	}
+	for _, text := range typeConfusionsStar() {
+		tryText("type-confusion", "BUILD.star", text)
+	}
+	for file, text := range singleEditSeeds {
+		for _, e := range singleEdits(text, thorough) {
+			tryText("single-edit", file, e)
+		}
+	}
 	if shard != 0 {
 		if out == nil {
 			out = []dis{}
@@ -642,4 +682,157 @@ func loaderDriver(args []string) error {
 		out = []dis{}
 	}
 	return writeJSON(args[2], map[string]any{"counts": counts, "disagreements": out})
+}
+
+const richDoc = `{"targets":[{"name":"t","command":"run it","dependencies":[":u"],"inputs":["a.txt"],"exclude_inputs":["b.txt"],` +
+	`"outputs":["o.txt","dir::d"],"bin_output":"bin.sh","output_checks":[{"command":"true","expected_output":"x"}],"tags":["x"],` +
+	`"fingerprint":{"k":"v"},"platforms":["linux/amd64"],"environment_variables":{"A":"b"},"timeout":"5s"},{"name":"u","command":"x"}],` +
+	`"aliases":[{"name":"al","actual":":t"}],"environments":[{"name":"e","type":"docker","dependencies":[":t"],"docker_image":"img"}],` +
+	`"default_platforms":["linux/amd64"]}`
+
+var confusionMenu = []string{`null`, `0`, `-1.5`, `true`, `""`, `"s"`, `[]`, `[null]`, `[[]]`, `{}`, `{"x":null}`, `[1]`, `["a",null]`,
+	`[{}]`, `{"name":null}`, `[{"name":null,"command":null}]`, `"//:"`, `":"`, `"::"`, `["::"]`, `[""]`, `{"":""}`, `1e999`, `"\u0000"`}
+
+// typeConfusions returns richDoc with each node in turn replaced by each menu value (and each object key removed).
+func typeConfusions() []string {
+	var doc any
+	_ = json.Unmarshal([]byte(richDoc), &doc)
+	var out []string
+	var walk func(node any, set func(any))
+	emit := func() {
+		b, _ := json.Marshal(doc)
+		out = append(out, string(b))
+	}
+	walk = func(node any, set func(any)) {
+		for _, m := range confusionMenu {
+			set(json.RawMessage(m))
+			emit()
+		}
+		set(node)
+		switch v := node.(type) {
+		case map[string]any:
+			keys := make([]string, 0, len(v))
+			for k := range v {
+				keys = append(keys, k)
+			}
+			sort.Strings(keys)
+			for _, k := range keys {
+				child := v[k]
+				delete(v, k)
+				emit()
+				v[k] = child
+				walk(child, func(x any) { v[k] = x })
+			}
+		case []any:
+			for i := range v {
+				walk(v[i], func(x any) { v[i] = x })
+			}
+		}
+	}
+	walk(doc, func(x any) { doc = x })
+	return out
+}
+
+// YAML-only shapes: empty list entries, anchors and merge keys, tags, multi-documents, tabs.
+func typeConfusionsYAMLOnly() []string {
+	return []string{
+		"targets:\n  -\n", "targets:\n  - \n  - name: t\n    command: x\n", "aliases:\n  -\n", "environments:\n  -\n",
+		"targets:\n  - ~\n", "targets: ~\n", "targets:\n", "aliases:\n", "~\n", "---\n", "---\n---\n", "--- !!binary x\n",
+		"targets:\n  - &a\n    name: t\n    command: x\n  - *a\n", "targets:\n  - <<: *nope\n",
+		"a: &a [*a]\n", "targets: &t\n  - name: t\n    command: x\n    dependencies: *t\n",
+		"targets:\n  - name: !!int t\n    command: x\n", "targets:\n  - name: t\n    command: x\n    timeout: !!float 5s\n",
+		"targets:\n\t- name: t\n", "targets: [\n", "targets: {\n", "? [a, b]\n: c\n", "targets:\n  - name: t\n    name: u\n    command: x\n",
+		"targets:\n  - name: t\n    command: x\n    fingerprint:\n      ~: v\n", "targets:\n  - name: t\n    command: x\n    fingerprint:\n      k: ~\n",
+		"targets:\n  - name: t\n    command: x\n    output_checks:\n      -\n", "targets:\n  - name: t\n    command: x\n    inputs:\n      -\n",
+		"targets:\n  - name: t\n    command: x\n    dependencies:\n      -\n", "targets:\n  - name: t\n    command: x\n    outputs:\n      -\n",
+		"targets:\n  - name: t\n    command: x\n    platforms:\n      -\n", "default_platforms:\n  -\ntargets:\n  - name: t\n    command: x\n",
+	}
+}
+
+func typeConfusionsMake() []string {
+	fields := []string{"name", "command", "dependencies", "inputs", "exclude_inputs", "outputs", "bin_output", "output_checks", "tags",
+		"fingerprint", "platforms", "environment_variables", "timeout", "unknown_field"}
+	var out []string
+	for _, f := range fields {
+		for _, m := range confusionMenu {
+			out = append(out, fmt.Sprintf("# @grog\n# %s: %s\nt:\n\techo\n", f, m))
+			out = append(out, fmt.Sprintf("# @grog\n# name: n\n# %s: %s\nt:\n\techo\n", f, m))
+		}
+		out = append(out, fmt.Sprintf("# @grog\n# %s:\nt:\n\techo\n", f), fmt.Sprintf("# @grog\n# %s:\n#   -\nt:\n\techo\n", f),
+			fmt.Sprintf("# @grog\n# %s:\n#   ~: ~\nt:\n\techo\n", f))
+	}
+	out = append(out, "# @grog\n", "# @grog", "# @grog\n#\n", "# @grog\n# \n", "# @grog\n\n", "# @grog\n# @grog\n", "# @grog\nt:\n", "# @grog\n# -\nt:\n",
+		"# @grog\n# ~\nt:\n", "# @grog\n# []\nt:\n", "# @grog\n# x\nt:\n", "# @grog\n# name: a\n: \n", "# @grog\n# name: a\n:\n", "# @grog\n# name: a\n\t:\n",
+		"# @grog\n# name: a\nt", "# @grog\n# name: a\n#", "# @grog\n# name: a\n# @grog\nt:\n", "#@grog\nt:\n", "# @grog \n# name: a\nt:\n", "# @grog\n#name: a\nt:\n",
+		"\n# @grog\n# name: a\nt u:\n", "# @grog\n# name: a\nt: u\n", "# @grog\n# name: a\nt::\n", "# @grog\n# name: a\nt := 1\n", "# @grog\n# name: a\n.PHONY: t\n",
+		"# @grog\r\n# name: a\r\nt:\r\n")
+	return out
+}
+
+func typeConfusionsStar() []string {
+	menu := []string{"None", "0", "-1.5", "True", `""`, `"s"`, "[]", "[None]", "[[]]", "{}", `{"x": None}`, "[1]", `["a", None]`, "[{}]",
+		`{1: 2}`, `("a",)`, "lambda: 1", "target", `"//:"`, `"::"`, `["::"]`, `[""]`, `{"": ""}`, `[{"command": None}]`, `[{"command": 1}]`,
+		`[{"expected_output": "x"}]`, `[{"command": "c", "nope": 1}]`}
+	kw := map[string][]string{
+		"target": {"name", "command", "dependencies", "inputs", "exclude_inputs", "outputs", "bin_output", "output_checks", "tags", "fingerprint",
+			"platforms", "environment_variables", "timeout", "nope"},
+		"alias":       {"name", "actual", "nope"},
+		"environment": {"name", "type", "dependencies", "docker_image", "nope"},
+	}
+	base := map[string]string{"target": `name = "t", command = "x"`, "alias": `name = "al", actual = ":t"`, "environment": `name = "e", type = "docker", docker_image = "i"`}
+	var out []string
+	for _, fn := range []string{"target", "alias", "environment"} {
+		for _, k := range kw[fn] {
+			for _, m := range menu {
+				out = append(out, fmt.Sprintf("%s(%s = %s)\n", fn, k, m))
+				if k != "name" {
+					out = append(out, fmt.Sprintf("%s(name = \"z\", %s = %s)\n", fn, k, m))
+				}
+				out = append(out, fmt.Sprintf("%s(%s, %s = %s)\n", fn, base[fn], k, m))
+			}
+		}
+		for _, m := range menu {
+			out = append(out, fmt.Sprintf("%s(%s)\n", fn, m), fmt.Sprintf("%s(*%s)\n", fn, m), fmt.Sprintf("%s(**%s)\n", fn, m))
+		}
+		out = append(out, fn+"()\n", fn+"\n", fn+" = 1\n"+fn+"()\n", fmt.Sprintf("x = %s(%s)\nx()\n", fn, base[fn]), fmt.Sprintf("[%s(%s) for _ in range(3)]\n", fn, base[fn]))
+	}
+	out = append(out, "def f():\n    f()\nf()\n", "def f():\n    target(name = \"t\", command = \"x\")\nf()\nf()\n", "load(\"x.star\", \"y\")\n",
+		"load(\"BUILD.star\", \"y\")\n", "for i in range(1000000000): pass\n", "x = [0] * 100\nx[200]\n", "fail(\"no\")\n", "1 // 0\n",
+		"target(name = \"t\" * 100000, command = \"x\")\n", "print(target)\n", "target(name = \"t\", command = \"x\").nope\n")
+	return out
+}
+
+var singleEditSeeds = map[string]string{
+	"BUILD.json": `{"targets":[{"name":"t","command":"x","inputs":["a.txt"],"outputs":["dir::d"],"fingerprint":{"k":"v"},"timeout":"5s"}],"aliases":[{"name":"al","actual":":t"}]}`,
+	"BUILD.yaml": "targets:\n  - name: t\n    command: x\n    inputs: [\"a.txt\"]\n    outputs:\n      - dir::d\n    fingerprint: {k: v}\n    timeout: 5s\naliases:\n  - name: al\n    actual: \":t\"\n",
+	"BUILD.star": "target(\n    name = \"t\",\n    command = \"x\",\n    inputs = [\"a.txt\"],\n    fingerprint = {\"k\": \"v\"},\n    timeout = \"5s\",\n)\nalias(name = \"al\", actual = \":t\")\n",
+	"Makefile":   "# @grog\n# name: n\n# inputs: [\"a.txt\"]\n# outputs:\n#   - dir::d\n# fingerprint: {k: v}\n# timeout: 5s\nt:\n\techo building\n",
+}
+
+// singleEdits: every deletion, truncation and junk insertion at every position (thorough: also every junk replacement and every
+// adjacent transposition and line deletion/duplication).
+func singleEdits(text string, thorough bool) []string {
+	var out []string
+	b := []byte(text)
+	for pos := 0; pos <= len(b); pos++ {
+		out = append(out, string(b[:pos]))
+		if pos < len(b) {
+			out = append(out, string(b[:pos])+string(b[pos+1:]))
+		}
+		for _, j := range []byte(junk + "\x00\xff -~*&!|>%") {
+			out = append(out, string(b[:pos])+string(j)+string(b[pos:]))
+			if thorough && pos < len(b) {
+				out = append(out, string(b[:pos])+string(j)+string(b[pos+1:]))
+			}
+		}
+		if thorough && pos+1 < len(b) {
+			out = append(out, string(b[:pos])+string(b[pos+1])+string(b[pos])+string(b[pos+2:]))
+		}
+	}
+	lines := strings.SplitAfter(text, "\n")
+	for i := range lines {
+		out = append(out, strings.Join(lines[:i], "")+strings.Join(lines[i+1:], ""))
+		out = append(out, strings.Join(lines[:i+1], "")+strings.Join(lines[i:], ""))
+	}
+	return out
 }
